@@ -21,6 +21,7 @@ package simrt
 import (
 	"fmt"
 	"math/rand/v2"
+	"os"
 	"reflect"
 	"runtime"
 	"runtime/debug"
@@ -806,6 +807,10 @@ func (s *Sched) Run(root func()) {
 			// Idle until the horizon: nothing will ever happen again.
 			if !s.RootDone || live > 0 {
 				s.Deadlocked = true
+				if os.Getenv("VSIM_STACKS") != "" {
+					buf := make([]byte, 1<<20)
+					os.Stderr.Write(buf[:runtime.Stack(buf, true)])
+				}
 			}
 			s.lock()
 			s.logLine("idle-to-horizon live=" + strconv.Itoa(live))
